@@ -423,6 +423,18 @@ func parseRule(node *yaml.Node, offsetLine, offsetColumn int, contentLines []str
 		}, false
 	}
 
+	// Prometheus rejects braces in the recording rule name, they usually mean
+	// that a PromQL expression was put in the name.
+	if recordPart != nil && strings.ContainsAny(recordPart.Value, "{}") {
+		return Rule{
+			Lines: lines,
+			Error: ParseError{
+				Line: recordPart.Pos.Lines().First,
+				Err:  fmt.Errorf("invalid recording rule name: %s", recordPart.Value),
+			},
+		}, false
+	}
+
 	if (recordPart != nil || alertPart != nil) && labelsPart != nil {
 		for _, lab := range labelsPart.Items {
 			if !model.LabelName(lab.Key.Value).IsValid() || lab.Key.Value == model.MetricNameLabel {
